@@ -85,6 +85,7 @@ class Ctx:
         self.exhaustive = {}
         self.t0 = time.time()
         self.budget_s = None  # soft budget for random workloads
+        self._oot_calls = {}
         self.notes = []
         self.xshard = {}  # key -> value that must agree across shards (different hash seeds)
 
@@ -129,7 +130,18 @@ class Ctx:
         return time.time() - self.t0
 
     def out_of_time(self, frac=1.0):
+        """wall-clock budget of a workload loop.  The first MIN_ITER calls from every call site answer False, so that on
+        a loaded machine every budget-guarded family is still exercised (the budget only trims, it never skips)."""
+        import sys as _sys
+        f = _sys._getframe(1)
+        site = (f.f_code.co_filename, f.f_lineno)
+        k = self._oot_calls.get(site, 0) + 1
+        self._oot_calls[site] = k
+        if k <= self.MIN_ITER:
+            return False
         return self.budget_s is not None and self.elapsed() > self.budget_s * frac
+
+    MIN_ITER = 24
 
     def dump(self):
         return {
